@@ -338,6 +338,14 @@ func (cc *grpcClientConn) Receive(msg any) error {
 		cc.duplexCall.SetError(err)
 		return err
 	}
+	if !errors.Is(err, io.EOF) {
+		// The message couldn't be read or decoded: a failure on this side, not
+		// the end of the response. Report it without waiting for the trailers -
+		// with HTTP trailers that would mean reading the response to its end, and
+		// the handler may well be waiting for our next message.
+		cc.duplexCall.SetError(err)
+		return err
+	}
 	// See if the server sent an explicit error in the HTTP or gRPC-Web trailers.
 	mergeHeaders(
 		cc.responseTrailer,
